@@ -120,7 +120,9 @@ class Run:
         self.trace = Trace(spec=spec)
         self.gates: dict[tuple, asyncio.Event] = {}
         self.waiting: list[tuple] = []
-        self.uid = 5000 if spec.get("_resumed") else 1000  # fresh uids of a resumed run never collide with the first run's
+        # fresh uids of a resumed run never collide with those of the runs before it (`_resumed`: True, or the generation
+        # number 1, 2, 3.. of a chain of stop/resume rounds)
+        self.uid = 1000 + 4000 * int(spec.get("_resumed") or 0)
         self.externals = list(spec.get("externals", []))
         self.replay_actions = list(replay_actions) if replay_actions is not None else None
         self.runner: Any = None
@@ -628,7 +630,7 @@ def run_spec(spec: dict, seed: int, replay_actions: list[int] | None = None, max
                     else:
                         # the snapshot was taken after the run had ended: run() starts a NEW run on the restored context
                         # (a start event is sent; whatever the ended run left queued / in progress is picked up again)
-                        run.trace.start_event = ET.T0(uid=2, k=spec.get("start_k"))
+                        run.trace.start_event = ET.T0(uid=1 + int(spec.get("_resumed") or 1), k=spec.get("start_k"))
                         handler = wf.run(ctx=ctx, start_event=run.trace.start_event)
                 else:
                     run.trace.start_event = ET.T0(uid=1, k=spec.get("start_k"))
